@@ -100,6 +100,15 @@ type checkerContext struct {
 	currentReceiver *receiverInfo
 }
 
+// inConstructor reports whether the walk is inside a constructor of the given type.
+// Only functions of the type's own package can be its constructors.
+func (ctx *checkerContext) inConstructor(pkgPath string, typeName string) bool {
+	if ctx.pass.Pkg == nil || ctx.pass.Pkg.Path() != pkgPath {
+		return false
+	}
+	return ctx.constructors.Match(pkgPath, *ctx.currentFunction, typeName)
+}
+
 // receiverInfo contains information about a method's receiver
 // @immutable
 type receiverInfo struct {
@@ -203,7 +212,7 @@ func checkFieldAssignment(
 		return nil
 	}
 
-	if ctx.constructors.Match(pkgPath, *ctx.currentFunction, typeName) {
+	if ctx.inConstructor(pkgPath, typeName) {
 		return nil
 	}
 
@@ -257,7 +266,7 @@ func checkIndexAssignment(
 		return nil
 	}
 
-	if ctx.constructors.Match(pkgPath, *ctx.currentFunction, typeName) {
+	if ctx.inConstructor(pkgPath, typeName) {
 		return nil
 	}
 
@@ -333,7 +342,7 @@ func checkFieldIncDec(
 		return nil
 	}
 
-	if ctx.constructors.Match(pkgPath, *ctx.currentFunction, typeName) {
+	if ctx.inConstructor(pkgPath, typeName) {
 		return nil
 	}
 
@@ -383,7 +392,7 @@ func checkReceiverIncDec(
 	}
 
 	// Allow in constructors
-	if ctx.constructors.Match(ctx.currentReceiver.pkgPath, *ctx.currentFunction, ctx.currentReceiver.typeName) {
+	if ctx.inConstructor(ctx.currentReceiver.pkgPath, ctx.currentReceiver.typeName) {
 		return nil
 	}
 
@@ -454,7 +463,7 @@ func checkCompoundLHS(
 		return nil
 	}
 
-	if ctx.constructors.Match(pkgPath, *ctx.currentFunction, typeName) {
+	if ctx.inConstructor(pkgPath, typeName) {
 		return nil
 	}
 
@@ -502,7 +511,7 @@ func checkReceiverReassignment(
 	}
 
 	// Allow reassignment in constructors
-	if ctx.constructors.Match(ctx.currentReceiver.pkgPath, *ctx.currentFunction, ctx.currentReceiver.typeName) {
+	if ctx.inConstructor(ctx.currentReceiver.pkgPath, ctx.currentReceiver.typeName) {
 		return nil
 	}
 
